@@ -53,6 +53,8 @@ func main() {
 		debugValues(os.Args[2:])
 	case "debug-reads":
 		debugReads()
+	case "debug-globals":
+		debugGlobals(loadWorld("/repo", nil, ""))
 	case "debug-sigs":
 		debugSigs(loadWorld("/repo", nil, ""))
 	case "list":
